@@ -123,6 +123,48 @@ def own_generator_cases(rnd, wd):
     return out
 
 
+def exchange_cases(rnd, wd):
+    """the stored misfit is the chain's OWN target at the stored state also when the state came from a tempering exchange
+    (two real chain processes, exchange at every proposal; the network side of the exchange is C12's subject)"""
+    import contextlib
+    import io
+    import os
+    import hmclab
+    out = []
+    d = rnd.choice([2, 3])
+    targets = [hmclab.Distributions.Normal(numpy.zeros((d, 1)), 1.0),
+               hmclab.Distributions.Normal(numpy.full((d, 1), 0.5), rnd.choice([2.0, 4.0]))]
+    for kind in ("rwmh", "hmc"):
+        cls = hmclab.Samplers.RWMH if kind == "rwmh" else hmclab.Samplers.HMC
+        be = rnd.choice(["h5", "npy"])
+        t = rnd.choice([1, 2, 3])
+        P = 30 * t
+        files = [os.path.join(wd, f"exch_{kind}_{i}.{be}") for i in range(2)]
+        try:
+            with contextlib.redirect_stdout(io.StringIO()), contextlib.redirect_stderr(io.StringIO()), numpy.errstate(all="ignore"):
+                hmclab.Samplers.ParallelSampleSMP(seed=rnd.randrange(1, 1000)).sample(
+                    [cls(seed=rnd.randrange(1, 1000)), cls(seed=rnd.randrange(1, 1000))], files, targets, proposals=P, exchange=True,
+                    exchange_interval=1, initial_model=[numpy.zeros((d, 1)), numpy.ones((d, 1))], overwrite_existing_files=True,
+                    kwargs={"disable_progressbar": True, "online_thinning": t, "stepsize": 0.3})
+        except Exception as e:  # noqa
+            out.append(("exchange-run-raised", f"{kind}, {be}: ParallelSampleSMP with exchange raised {type(e).__name__}: {e}"))
+            continue
+        for i, (f, tg) in enumerate(zip(files, targets)):
+            with hmclab.Samples(f) as s:
+                data = numpy.array(s.numpy)
+            if data.shape != (d + 1, P // t):
+                out.append(("exchange-columns", f"{kind}, {be}, chain {i}: {data.shape[1]} columns for P={P}, t={t}"))
+                continue
+            for j in range(data.shape[1]):
+                x = float(tg.misfit(data[:d, j][:, None].copy()))
+                if not numpy.isclose(x, data[d, j], rtol=1e-9, atol=1e-12):
+                    out.append(("exchange-stale-misfit", f"{kind}, {be}, thinning {t}, chain {i}, column {j}: stored misfit {data[d, j]!r}, the chain's own target gives "
+                                f"{x!r} at the stored state (two chains exchanging at every proposal)"))
+                    break
+    numpy.seterr(all="warn")
+    return out
+
+
 def run(tier, seed):
     rnd = random.Random(seed * 7919 + 7)
     n = 110 if tier == "quick" else 1500
@@ -144,6 +186,8 @@ def run(tier, seed):
                 violations.append(Violation(key, what, {"case": cfgL, "long_run": True}))
         for key, what in own_generator_cases(rnd, wd):
             violations.append(Violation(key, what, {"own_generator": what}))
+        for key, what in exchange_cases(random.Random(seed * 7919 + 11), wd):   # (its own stream: the cases below are unchanged)
+            violations.append(Violation(key, what, {"exchange": what, "stream_seed": seed * 7919 + 11}))
         for i in range(n):
             t = rnd.choice([1, 2, 3, 4, 5, 6])
             cfg = sr.gen_run(rnd, thin=t, maxP=(12 if tier == "quick" else 60))
@@ -199,7 +243,7 @@ def run(tier, seed):
     return {
         "evaluations": n, "distinct_nontrivial": len(seen),
         "rule": "seeded complete runs, thinning t in 1..6 with t | P, alternating HDF5/NPY back ends, RWMH and HMC, 40% over an earlier file at the same path, 30% on a sampler "
-                "object that already made a run, two chains of 2400 proposals (statement oracle only); each thinned "
+                "object that already made a run, two chains of 2400 proposals (statement oracle only), two pairs of real chain processes exchanging at every proposal (own misfit of every stored column); each thinned "
                 "run is repeated unthinned with the same scripted random numbers; non-trivial = t > 1 and at least one accepted proposal",
         "samples": samples, "violations": violations,
         "traces_validated_against_impl": len(idx) - len(bad),
@@ -209,6 +253,14 @@ def run(tier, seed):
 
 
 def replay(doc):
+    if "exchange" in doc["replay"]:
+        wd = common.tmpdir("c07r_")
+        try:
+            probs = exchange_cases(random.Random(doc["replay"].get("stream_seed", 11)), wd)
+        finally:
+            shutil.rmtree(wd, ignore_errors=True)
+        print("exchange runs:", probs or "ok")
+        return 1 if probs else 0
     cfg = doc["replay"]["case"]
     wd = common.tmpdir("c07r_")
     try:
